@@ -9,9 +9,9 @@ VARIANTS = ["fresh", "dirtybuf", "reset_after_fail", "reset_after_use", "pooled"
 
 def run(ctx):
     ctx.level = LEVEL
-    runs = [("Writer_wf3.cfg", "wf3"), ("Writer_boundary_q.cfg", "bq"), ("Writer_boundary2.cfg", "b2")]
+    runs = [("Writer_wf3.cfg", "wf3"), ("Writer_boundary_q.cfg", "bq"), ("Writer_boundary2.cfg", "b2"), ("Writer_subcopy.cfg", "sc")]
     if not ctx.quick():
-        runs = [("Writer_wf3.cfg", "wf3"), ("Writer_wf4.cfg", "wf4"), ("Writer_boundary.cfg", "bfull"), ("Writer_boundary2.cfg", "b2")]
+        runs = [("Writer_wf3.cfg", "wf3"), ("Writer_wf4.cfg", "wf4"), ("Writer_boundary.cfg", "bfull"), ("Writer_boundary2.cfg", "b2"), ("Writer_subcopy.cfg", "sc")]
     states = trans = programs = builds = 0
     samples = []
     for cfg, name in runs:
